@@ -30,6 +30,7 @@ from engines.polyid.algo import (AlgoInterp, Config, Lin, PendLin, PathEnd, Scal
 from engines.polyid.curves import models
 from engines.polyid import replay as RP
 from . import C04 as K4
+from . import C10_helper as HP
 
 MIR = None
 MODELS = None
@@ -344,7 +345,14 @@ def task_straight(name, fn):
     return res
 
 
+def _order_of(curve):
+    from engines.polyid.recoders import scalar_order
+    return scalar_order(MIR, curve)
+
+
 def work(task):
+    if isinstance(task[0], str) and task[0] in ("hglue", "hdirect", "hlemma", "hloop"):
+        return HP.work(MIR, config_for, _order_of, task, Z3_TIMEOUT_MS)
     if task[0] == "straight":
         try:
             return task_straight(task[1], task[2])
@@ -426,6 +434,8 @@ def run(tier, only=None):
     only = list(only or [])
     names = [c for c in ROUTINES if c in only] or (QUICK if tier == "quick" else list(ROUTINES))
     fsel = [o for o in only if o not in ROUTINES]
+    # `--only helper` (or verify_helper_vartime): the verification helpers alone; no selection: everything
+    want_helper = (not fsel) or any(o in ("helper", "verify_helper_vartime") for o in fsel)
     rp = RP.Replay(list(RP.CURVES))
     th = threading.Thread(target=rp.build, daemon=True)
     th.start()
@@ -498,7 +508,22 @@ def run(tier, only=None):
             obs.append(ro)
             rec_meta.append((ro, len(tasks), c, fn, spec))
             tasks.append(("recoder", c, fn))
+    # the verification helpers (props/C10_helper.py): glue up to the last recoder call, loop after it
+    hmeta = []
+    if want_helper:
+        try:
+            hobs, htasks, hmeta0 = HP.plan(MIR, config_for, _order_of, tier, [c for c in only if c in HP.HELPERS],
+                                           Obligation)
+        except (MirError, Unsupported) as e:
+            hobs, htasks, hmeta0 = [], [], []
+            merr = merr or "helper planning failed: %s" % str(e)[:400]
+        base = len(tasks)
+        tasks += htasks
+        obs += hobs
+        hmeta = [(m[0], m[1], [i + base for i in m[2]]) + tuple(m[3:]) for m in hmeta0]
     res = pmap(work, tasks, nproc=NCPU, timeout=220 if tier == "quick" else 1700) if tasks else []
+    if hmeta:
+        merr = HP.collect(hmeta, tasks, res, Z3_VERSION) or merr
     for o, ti in straight_meta:
         stt, val = res[ti]
         if stt != "ok":
@@ -611,7 +636,7 @@ def run(tier, only=None):
                     ro.reason += " | native replay of %d arguments meets the contract" % n
         for o in obs:
             h = o.hint
-            if h.get("recoder"):
+            if h.get("recoder") or h.get("helper"):
                 continue
             try:
                 n, mism, err = native_check(rp, h["curve"], h["func"], rng, 6 if o.verdict == "discharged" else 24)
@@ -636,23 +661,33 @@ def run(tier, only=None):
                     o.reason += " | native replay unavailable: %s" % err[:200]
                 elif getattr(o, "candidate", False):
                     o.reason += " | native replay of %d (u, v, P) triples agrees with u*P + v*G" % n
+        if any(o.hint.get("helper") for o in obs):
+            hcnt, herr = HP.native(K4, MODELS, rp, obs, _order_of, rng)
+            native["checked"] += hcnt["checked"]
+            native["failed"] += hcnt["failed"]
+            native["helper"] = hcnt
+            merr = merr or herr
     else:
         for o in obs:
             if o.verdict != "discharged":
                 o.reason += " | native replay not built: %s" % (rp.error or "")[:200]
     na = [o.name for o in obs if getattr(o, "not_abstractable", False)]
+    has_helper = any(o.hint.get("helper") for o in obs)
     return finish(
         "C10", tier, obs, t0,
         functions_encoded=sorted({f for o in obs for f in o.functions}),
         bounds={"digits": "all arrays with every digit 0 or odd in [-15, 15] (no use is made of the non-adjacency rule)",
                 "state": "all (zz, pending doubling count, accumulator) at every loop head",
                 "columns": "every column of the main loop, the segment before and the segment after it"},
-        stubs={"set_add/set_sub/set_xdouble/... -> group law": "C03", "recode_*_NAF -> valid wNAF digits of the value": "C10 recoders (other engine)",
-               "split_mu/split_theta": "C11", "PRECOMP_* contents": "C04 ground facts"},
+        stubs=dict({"set_add/set_sub/set_xdouble/... -> group law": "C03", "recode_*_NAF -> valid wNAF digits of the value": "C10 recoders (other engine)",
+                    "split_mu/split_theta": "C11", "PRECOMP_* contents": "C04 ground facts"},
+                   **(HP.EVIDENCE["stubs"] if has_helper else {})),
         assumptions=["Horner: V_0 = 0 and V_(i) = 2 V_(i+1) + D_i for all columns give V = sum 2^i D_i (meta-argument)",
-                     "MIR semantics of engines/polyid/interp.py + algo.py, path forking with z3 feasibility checks"],
-        outside=["verify_helper_vartime glue (split_vartime, truncation recovery): K / C11", "the wNAF recoders themselves",
-                 "not abstractable in this run: " + (", ".join(na) if na else "none")],
+                     "MIR semantics of engines/polyid/interp.py + algo.py, path forking with z3 feasibility checks"]
+        + (HP.EVIDENCE["assumptions"] if has_helper else []),
+        outside=(HP.EVIDENCE["outside"] if has_helper else
+                 ["verify_helper_vartime (not selected in this run; `--only helper`)"]) +
+        ["split_vartime itself: C11", "not abstractable in this run: " + (", ".join(na) if na else "none")],
         ground_facts={"checked": native["checked"], "failed": native["failed"], "native": native},
         extra={"mir_seconds": round(mir_secs, 1),
                "encoder_lemmas": [{"lemma": l, "z3": stt, "s": round(sc_, 3)} for l, stt, sc_ in bvl]},
@@ -693,6 +728,16 @@ def replay(path):
     if r[0] == "panic":
         print("REPRODUCED: native panic")
         return 1
+    if req.split()[1] == "vh":
+        if r[0] != "ok":
+            print("replay: native run failed %r" % (r,))
+            return 2
+        if bool(r[1][0]) != bool(model.get("expected")) or bool(r[1][0]) != bool(r[1][1]):
+            print("REPRODUCED: property=C10 key=%s (helper returned %s, s*G = R + k*Q is %s)" % (
+                model.get("key"), bool(r[1][0]), bool(r[1][1])))
+            return 1
+        print("NOT REPRODUCED")
+        return 0
     if r[0] != "ok":
         print("replay: native run failed %r" % (r,))
         return 2
